@@ -154,7 +154,7 @@ func (g *gen) bodyFault(n int) Fault {
 	default:
 		at = g.r.Intn(n + 1)
 	}
-	kind := rt.Pick(g.r, []string{"unexpected-eof", "custom-error", "cancel"})
+	kind := rt.Pick(g.r, []string{"unexpected-eof", "custom-error", "cancel", "unexpected-eof", "custom-error", "cancel", "cancel-silent", "cancel-at-eof"})
 	return Fault{Seam: "req-body", At: at, Kind: kind}
 }
 
@@ -214,7 +214,7 @@ func GenC02Exhaustive(seed uint64, tier string) *Plan {
 		body[i] = byte('A' + i%26)
 	}
 	for at := 0; at <= size; at++ {
-		for _, kind := range []string{"unexpected-eof", "custom-error", "cancel"} {
+		for _, kind := range []string{"unexpected-eof", "custom-error", "cancel", "cancel-silent"} {
 			target := "/f"
 			if r.Chance(0.3) {
 				target = "/d/new"
@@ -324,6 +324,18 @@ func GenC04(seed uint64, tier string) *Plan {
 		}
 	}
 	return g.plan
+}
+
+// GenC04Memfs: the same stale-tag histories against the in-memory store, whose
+// entity tags are arbitrary strings (quotes, backslashes, non-ASCII, control
+// characters) and whose preconditions are evaluated with the public
+// ConditionalMatch helpers only: the codec part of C04.
+func GenC04Memfs(seed uint64, tier string) *Plan {
+	p := GenC04(seed, tier)
+	p.Profile = "conditional-memfs"
+	p.Config.Store = "memfs"
+	p.Config.MemfsSeed = rt.Mix(seed, 0x7a95)
+	return p
 }
 
 // ---- C03: hostile paths ----------------------------------------------------------
